@@ -1,4 +1,5 @@
 import Driver.C09
+import Driver.C06
 /-!
 `sfdriver`: executable models behind a line protocol.  One request per line
 (`<model> <op> <args…>`), one reply line per request.  Core-only (no Mathlib below this file).
@@ -7,6 +8,7 @@ import Driver.C09
 def dispatch (ws : List String) : String :=
   match ws with
   | "c09" :: rest => Driver.C09.handle rest
+  | "c06" :: rest => Driver.C06.handle rest
   | _ => "bad-op"
 
 partial def loop (hin : IO.FS.Stream) (hout : IO.FS.Stream) : IO Unit := do
